@@ -190,6 +190,9 @@ class Check:
             want['stories'] = srcs('storyID', True)
         if cls in ('EAItemSwap', 'EAItemMove'):
             want['items'] = srcs('itemID', True)
+        for name, vals in ex:
+            if any(v == '' for v in vals):
+                return '%s.%s reports a blank ID as %r instead of None' % (cls, name, vals)
         for k, v in want.items():
             if d.get(k) != v:
                 return '%s.%s reports %r, the message names %r' % (cls, k, d.get(k), v)
